@@ -4,22 +4,29 @@
         metadata), the rows in the file (pyarrow read_table) and the rows delivered by load_from_file with
         load batch size m, both as runs (start, length) of consecutive indices.
    CBatch: rs.data.batch(n) alone, what it emits while each row is pushed and at completion.
+   CCols: the column layer.  parquet.create_record(schema) was called on a list of row dicts (keys and values are
+        small non-negative integers; keys in any order, extra keys, sometimes a schema name missing); observed: the
+        columns of the record batch it returned (None when it raised KeyError) and, when it returned, the rows that
+        load_from_file delivers from a parquet file holding exactly this record batch (keys in dict order).
    CSkip: a SCALE case (dump or load batches of tens of thousands of rows) that is too large to be evaluated
         here, the list model being quadratic in the batch size: it is judged by the model-free oracle of
         harness/props/C20.py alone; never used for an observation that raised. *)
 From Coq Require Import List ZArith NArith Bool Arith.
-From RxVerif Require Import Base.Corr Container.Parquet.
+From RxVerif Require Import Base.Corr Container.Parquet Container.ParquetCols.
 Import ListNotations.
 
 Inductive c20case :=
 | CRaised
 | CPq (k n m : N) (rg : option N) (rg_sizes : list N) (file_runs load_runs : list (N * N)) (completed : bool)
 | CBatch (k n : N) (out : list (list (list N)))
+| CCols (names : list N) (data : list (list (N * N))) (cols : option (list (list N))) (rows : list (list (N * N)))
 | CSkip.
 
 Definition expand (runs : list (N * N)) : list N :=
   concat (map (fun r => nseq (fst r) (N.to_nat (snd r))) runs).
 Definition ns_eqb := list_eqb N.eqb.
+
+Definition pair_eqb (a b : N * N) : bool := N.eqb (fst a) (fst b) && N.eqb (snd a) (snd b).
 
 Definition c20_check (c : c20case) : bool :=
   match c with
@@ -32,5 +39,12 @@ Definition c20_check (c : c20case) : bool :=
       && ns_eqb (load N (N.to_nat m) f) (expand lr)
   | CBatch k n out =>
       list_eqb (list_eqb ns_eqb) (batch_timed N (N.to_nat n) (idx_rows k)) out
+  | CCols names data cols rows =>
+      let mc := create_cols N N N.eqb names data in
+      option_eqb (list_eqb ns_eqb) mc cols
+      && match mc with
+         | Some c => list_eqb (list_eqb pair_eqb) (rows_of_cols N N names c) rows
+         | None => true
+         end
   | CSkip => true
   end.
